@@ -100,6 +100,7 @@ SPECS = {
     "C16": dict(modules=["Ovldverif.Props.C16"], streams=["graph"], oracle="C16"),
     "C18": dict(modules=["Ovldverif.Props.C18", "Ovldverif.Props.C18Resolve"], streams=["build", "table_cut", "table_cut_rich"], oracle="C18"),
     "C08": dict(modules=["Ovldverif.Props.C08"], streams=["graph", "graph_deep"], oracle="C08"),
+    "C17": dict(modules=["Ovldverif.Props.C17", "Ovldverif.Props.C08", "Ovldverif.Props.C16"], streams=["classes"], oracle="C17"),
 }
 
 STREAMS = {
@@ -118,6 +119,7 @@ STREAMS = {
     "rewrite": ("check_rewrite", "worker", lambda seed, n: (seed + 47, n, {}), "H"),
     "rewrite_struct": ("corr_h", "worker", lambda seed, n: (seed + 53, 6 * n, {}), "H"),
     "build": ("check_build", "worker", lambda seed, n: (seed + 59, 2 * n, {}), "I"),
+    "classes": ("corr_j", "worker", lambda seed, n: (seed + 61, n, {}), "J"),
     "graph": ("check_graph", "worker", lambda seed, n: (seed + 19, n, {}), "G"),
     "graph_deep": ("check_graph", "worker", lambda seed, n: (seed + 23, n, {"nnodes": 6, "recurse_bias": 0.6}), "G"),
 }
